@@ -574,4 +574,10 @@ def run(ctx):
     r8 = ctx.rule("C06-R8", "limit checks are inclusive: a value is accepted iff value <= limit", floor=5)
     run_r8(ctx, r8)
     ctx.assume("numeric exactness of the decimal conversion is C13's subject")
+    # R9: the numbers the limits are applied to are the numbers in the file: overflow discipline and fast/byte-wise
+    # plumbing of the decimal scanners (C13-R1b, C13-R4), run here too
+    from . import c13
+    r9 = ctx.rule("C06-R9", "decimal scanning yields the exact value or None (overflow flag typestate and fast-path plumbing, shared with C13-R1b/R4)", floor=10)
+    c13.run_r1b(ctx, r9)
+    c13.run_r4(ctx, r9)
     return "other", "every limit the property names is installed from the right source and dominates every hand-out / narrowing", {}
